@@ -172,7 +172,7 @@ func vfC02Case(rt *rapid.T, c *ev.Collector) {
 	br, _ := vfGenBridge(rt, []int{0, 0, 0, 1})
 	ent := vfEnt(rapid.Uint64().Draw(rt, "refEntropy"))
 	legacy := rapid.Bool().Draw(rt, "legacyBridgeLine")
-	scenario := rapid.SampledFrom([]string{"genuine", "wrong-nodeid-bit", "wrong-pubkey-bit", "impostor", "tamper", "tamper", "retry-after-failure", "interleaved-handshakes"}).Draw(rt, "scenario")
+	scenario := rapid.SampledFrom([]string{"genuine", "wrong-nodeid-bit", "wrong-pubkey-bit", "impostor", "tamper", "tamper", "retry-after-failure", "interleaved-handshakes", "genuine-skewed-clock"}).Draw(rt, "scenario")
 	endByDeadline := rapid.Bool().Draw(rt, "endByDeadline")
 	var desc string
 	segments := 1
@@ -273,6 +273,70 @@ func vfC02Case(rt *rapid.T, c *ev.Collector) {
 			segments = 3
 		}
 		desc = fmt.Sprintf("genuine x%d", conns)
+
+	case "genuine-skewed-clock":
+		// A genuine client whose clock is in the previous / next hour (the
+		// reference client, which can be told the hour) against the real bridge:
+		// the handshake completes - the reply verifies under the hour the client
+		// stamped - and both ends hold the same keys.
+		sf, err := vfServerFactory(br)
+		if err != nil {
+			rt.Fatalf("VIOL[c02-serverfactory]: %v", err)
+		}
+		off := int64(rapid.SampledFrom([]int{-1, 0, 1}).Draw(rt, "hourOff"))
+		desc = fmt.Sprintf("genuine client with hour offset %+d", off)
+		n := wire.New()
+		defer n.Shutdown()
+		sv := drive.Start(n, wire.B, func() (net.Conn, error) { return sf.WrapConn(n.Conn(wire.B)) })
+		if err := n.WaitQuiescent(wire.B); err != nil {
+			rt.Fatalf("VIOL[c02-wedge]: %v", err)
+		}
+		hour0 := vfHourNow()
+		cl := &refobfs4.Client{ID: refobfs4.Identity{Pub: br.ID.Pub, NodeID: br.ID.NodeID}, Key: refobfs4.NewEKey(ent),
+			Pad: ent(refobfs4.ClientMinPad + rapid.IntRange(0, 400).Draw(rt, "clientPad")), Hour: hour0 + off}
+		n.Inject(wire.A, cl.Handshake())
+		if err := vfReleaseChunks(rt, n, wire.A, "c2s", wire.B); err != nil {
+			rt.Fatalf("VIOL[c02-wedge]: %v", err)
+		}
+		if vfHourNow() != hour0 {
+			rt.Skip("hour changed during the case")
+		}
+		if msg := vfEndpointFailure("server", sv); msg != "" {
+			rt.Fatalf("%s", msg)
+		}
+		if !sv.SetupDone() || sv.SetupErr() != nil {
+			rt.Fatalf("VIOL[c02-genuine-failed]: bridge did not accept a genuine client whose clock is %+d h off: done=%v err=%v", off, sv.SetupDone(), sv.SetupErr())
+		}
+		resp := n.Take(wire.B)
+		sh, err := cl.ParseResponse(resp)
+		if err != nil {
+			rt.Fatalf("VIOL[c02-genuine-failed]: the genuine bridge's response does not verify at a client whose clock is %+d h off (hour %d): %v", off, cl.Hour, err)
+		}
+		c2s, s2c := refobfs4.Keys(sh.KeySeed)
+		enc, dec := refobfs4.NewEncoder(c2s), refobfs4.NewDecoder(s2c)
+		dec.Feed(resp[sh.Len:])
+		if _, err := dec.All(); err != nil {
+			rt.Fatalf("VIOL[c02-session-keys-differ]: the seed frame behind the response does not open: %v", err)
+		}
+		m1, m2 := vfCounterStream(0, 0, 500), vfCounterStream(1, 0, 900)
+		n.Inject(wire.A, enc.Frame(refobfs4.PktPayload, m1, 0))
+		n.ReleaseAll(wire.A)
+		if r, _, _ := sv.Write(m2); r.Failed() || r.Err != nil {
+			rt.Fatalf("VIOL[c02-genuine-failed]: server write: %s", r)
+		}
+		if err := n.WaitQuiescent(wire.B); err != nil {
+			rt.Fatalf("VIOL[c02-wedge]: %v", err)
+		}
+		dec.Feed(n.Take(wire.B))
+		frames, err := dec.All()
+		var got2 []byte
+		for _, f := range frames {
+			got2 = append(got2, f.Payload...)
+		}
+		if err != nil || !bytes.Equal(sv.Got(), m1) || !bytes.Equal(got2, m2) {
+			rt.Fatalf("VIOL[c02-session-keys-differ]: data does not flow after a genuine handshake with hour offset %+d (server got %d/%d, client got %d/%d, decode error %v)", off, sv.GotLen(), len(m1), len(got2), len(m2), err)
+		}
+		segments = 3
 
 	case "interleaved-handshakes":
 		// Several connections of one process (one client factory, one server
@@ -659,7 +723,7 @@ func vfC02Case(rt *rapid.T, c *ev.Collector) {
 func TestVerifC02Scenarios(t *testing.T) {
 	vfSetup(t)
 	c := ev.For("C02")
-	c.Rule("scenarios: generated identity, node ID, seed, bridge-line form and chunk plans; scenario in {retry-after-failure (one client factory: a first attempt fails because the network fails while the handshake is written / the server stays silent / EOF, then a second connection through the same factory must complete and must not reuse the representative already sent), genuine (1-3 sequential connections, echo both ways, all ephemeral representatives distinct; in a third of them the server speaks first with up to 16384 bytes queued behind response and seed frame, optionally after a short first read), interleaved-handshakes (one client and one server factory; connection 1 parked with its handshake and/or its response held at the transport while 1-4 other connections handshake from start to end; all must complete with matching keys), one bit of the client's node ID / public key flipped (real server), impostor = reference server that knows the public bridge line only (AUTH from its own key, random AUTH, AUTH of another handshake, genuine AUTH with another Y', low-order Y'), tamper = modification of a genuine response in flight (blind: one bit of Y'|AUTH|M_S|MAC_S, a padding bit, insert / delete one byte, truncate, substitute another connection's response; informed: one bit of Y'|AUTH with mark and MAC recomputed from the public bridge line) with server payload queued behind it}; every server response is released with cuts drawn relative to its fields (inside MAC_S, inside the mark, at the Y' / AUTH boundaries, inside the seed frame behind it) before generic chunk plans; oracle: genuine => Dial/WrapConn succeed and data flows; otherwise, after the exchange ends by EOF or the fired client deadline, Dial has returned an error and zero application bytes surfaced; non-trivial = any non-genuine scenario or a genuine one delivered in >= 3 segments; fingerprint = scenario + parameters")
+	c.Rule("scenarios: generated identity, node ID, seed, bridge-line form and chunk plans; scenario in {retry-after-failure (one client factory: a first attempt fails because the network fails while the handshake is written / the server stays silent / EOF, then a second connection through the same factory must complete and must not reuse the representative already sent), genuine (1-3 sequential connections, echo both ways, all ephemeral representatives distinct; in a third of them the server speaks first with up to 16384 bytes queued behind response and seed frame, optionally after a short first read), genuine-skewed-clock (the reference client stamped with the previous / current / next hour against the real bridge: the reply must verify under the client's hour and data must flow), interleaved-handshakes (one client and one server factory; connection 1 parked with its handshake and/or its response held at the transport while 1-4 other connections handshake from start to end; all must complete with matching keys), one bit of the client's node ID / public key flipped (real server), impostor = reference server that knows the public bridge line only (AUTH from its own key, random AUTH, AUTH of another handshake, genuine AUTH with another Y', low-order Y'), tamper = modification of a genuine response in flight (blind: one bit of Y'|AUTH|M_S|MAC_S, a padding bit, insert / delete one byte, truncate, substitute another connection's response; informed: one bit of Y'|AUTH with mark and MAC recomputed from the public bridge line) with server payload queued behind it}; every server response is released with cuts drawn relative to its fields (inside MAC_S, inside the mark, at the Y' / AUTH boundaries, inside the seed frame behind it) before generic chunk plans; oracle: genuine => Dial/WrapConn succeed and data flows; otherwise, after the exchange ends by EOF or the fired client deadline, Dial has returned an error and zero application bytes surfaced; non-trivial = any non-genuine scenario or a genuine one delivered in >= 3 segments; fingerprint = scenario + parameters")
 	c.Assume("cryptographic strength (HMAC, X25519, SHA-256) is assumed; what is tested is that every check is wired in and bound to the right inputs")
 	for _, s := range []string{"genuine", "wrong-nodeid-bit", "wrong-pubkey-bit", "impostor", "tamper", "retry-after-failure"} {
 		c.Floor("scenario-"+s, 0.08)
